@@ -16,6 +16,13 @@
 //! sent signed with the key key.dept.bg.).  Queries: every
 //! owner name, a child of it and extra names (mixed case) x 10 QTYPEs x {no EDNS, EDNS 1232, EDNS 4096}
 //! x {TCP, UDP exact buffer, UDP oversized buffer}.
+//! Responses beyond the reach of a compression pointer [C02][C13]: a zone hg. whose RRset big.hg. MX has
+//! ~1024 records, so that the TCP response exceeds 16384 octets; the last exchange names share suffixes
+//! (a^L.uniq.zzz. / b.uniq.zzz., in-zone a^L.uniq.hg. / b.uniq.hg., a^L.mid.uniq.zzz. / b.uniq.zzz. / c.b.uniq.zzz.)
+//! and the number of plain records (1020..=1022) and L (18..=30 / 1..=24 / 1, 9) are swept so that each label of the first of them comes to lie
+//! on either side of offset 16384.  Every response must decode, every compression pointer must point
+//! strictly backwards to the first octet of a label of an earlier name (srv_ref::pointer_check, applied
+//! to every other response of this stand-in, too), and the answer section must be the RRset.
 //! C04: UDP length <= limit; TC => no records; TCP never TC; the TCP response fits => UDP identical;
 //! otherwise a UDP response with TC clear has the same answer/authority, a sub-multiset of the
 //! additional records and all in-bailiwick glue.  Optional/open points are accepted both ways:
@@ -32,7 +39,7 @@ use quandary::db::{HashMapTreeCatalog, HashMapTreeZone, SingleZoneCatalog};
 use quandary::message::tsig::Algorithm;
 use quandary::name::Name;
 use quandary::server::{ReceivedInfo, Response, Server, Transport, TsigKeyMap};
-use srv_ref::{sign_request, Alg, Key, decode, hex, header, lower, name, question, rr, DMsg, DRr, NXDOMAIN, REFUSED, SERVFAIL};
+use srv_ref::{sign_request, Alg, Key, decode, hex, header, lower, name, pointer_check, question, rr, DMsg, DRr, NXDOMAIN, REFUSED, SERVFAIL};
 use std::panic::{catch_unwind, AssertUnwindSafe};
 use std::sync::Arc;
 use vq_bounded::{done, fail};
@@ -208,6 +215,25 @@ fn big_zone() -> ZoneDef {
     z.add(&format!("x.{long}"), A, 42, v4(1));
     z.add(&format!("x.{long}"), AAAA, 42, v6(1));
     z.add(&format!("c.{long}"), CNAME, 43, name(&format!("x.{long}")));
+    z
+}
+
+/// The zone hg.: big.hg. MX with `plain` records whose exchange is big.hg. itself (16 octets each in a
+/// response to big.hg. MX), then records whose exchanges share suffixes; `l` = length of the first label
+/// of the first of them.
+fn huge_zone(plain: u16, l: usize, kind: usize) -> ZoneDef {
+    let mut z = ZoneDef::new("hg.", 1);
+    z.add("hg.", SOA, 300, soa("hg.", 300));
+    z.add("hg.", NS, 300, name("ns.hg."));
+    z.add("ns.hg.", A, 300, v4(1));
+    for i in 0..plain { z.add("big.hg.", MX, 77, mx(i, "big.hg.")); }
+    let a = "a".repeat(l);
+    let tail: Vec<String> = match kind {
+        0 => vec![format!("{a}.uniq.zzz."), "b.uniq.zzz.".into()],
+        1 => vec![format!("{a}.uniq.hg."), "b.uniq.hg.".into(), "B.UNIQ.hg.".into()],
+        _ => vec![format!("{a}.mid.uniq.zzz."), "b.uniq.zzz.".into(), "c.b.uniq.zzz.".into(), format!("{a}.mid.uniq.zzz.")],
+    };
+    for (i, t) in tail.iter().enumerate() { z.add("big.hg.", MX, 77, mx(plain + i as u16, t)); }
     z
 }
 
@@ -436,7 +462,9 @@ fn main() {
                 let n = match r { Ok(Some(n)) => n, Ok(None) => fail("[C05] no response to a well-formed query", &input(&how), &"none", &"a response"), Err(_) => fail("[C05] Server::handle_message panicked", &input(&how), &"panic", &"a response") };
                 out.clear();
                 out.extend_from_slice(&big[..n]);
-                match decode(out) { Ok(d) => d, Err(why) => fail("[C02] the response does not decode", &input(&how), &format!("{why}: {}", hex(out)), &"a well-formed message") }
+                let d = match decode(out) { Ok(d) => d, Err(why) => fail("[C02] the response does not decode", &input(&how), &format!("{why}: {}", hex(out)), &"a well-formed message") };
+                if let Err(why) = pointer_check(out) { fail("[C02][C13] a name of the response is not well formed", &input(&how), &format!("{why}: {}", hex(out)), &"every pointer strictly backwards to a label of an earlier name"); }
+                d
             };
             // ---- the complete response (TCP) against the reference
             let t = ask(true, 65535, &mut tcp_buf);
@@ -495,5 +523,38 @@ fn main() {
             }
         }}}}}
     }
-    done(cases, "64 variants of the zone ap.ex. (6 toggles; alone in a SingleZoneCatalog / with 2 child zones and a class-CH zone in a HashMapTreeCatalog) and the zone bg. (every query also TSIG-signed with key key.dept.bg.) x every owner name, a child of each and 30-38 extra names x 10 QTYPEs x QCLASS IN (CH where such a zone exists) x EDNS none/1232/4096 (600 for bg.) x TCP + UDP with 3 response-buffer sizes");
+    // ---- responses of more than 16384 octets [C02][C13]
+    let mut huge = 0u64;
+    for kind in 0..3 { for plain in [1020u16, 1021, 1022] { for l in 1..=30usize {
+        // the first exchange that shares a suffix starts at offset 16358 / 16374 / 16390: keep the first-label lengths that
+        // move its labels across offset 16384 (and a few on either side)
+        if (plain == 1020 && l < 18) || (plain == 1021 && l > 24) || (plain == 1022 && l != 1 && l != 9) { continue; }
+        let def = huge_zone(plain, l, kind);
+        let want: Vec<RR> = sorted(def.recs.iter().filter(|r| r.rtype == MX).map(|r| (name("big.hg."), MX, 1, r.ttl, r.rdata.to_vec())).collect());
+        let c = catalog(format!("SingleZoneCatalog: hg. with big.hg. MX = {plain} x big.hg. + exchanges sharing suffixes (kind {kind}, first label of {l} octets)"), vec![def], true, &[], None);
+        for edns in [None, Some(4096u16)] {
+            cases += 1;
+            let mut req = header(0x4343, 0, 0, 1, 0, 0, edns.is_some() as u16);
+            req.extend(question(&name("big.hg."), MX, 1));
+            if let Some(size) = edns { req.extend(rr(&[0], T_OPT, size, 0, &[])); }
+            let input = format!("big.hg. QTYPE MX EDNS {edns:?} over TCP | request {} | catalog: {}", hex(&req), c.what);
+            let info = ReceivedInfo::new("192.0.2.1".parse().unwrap(), Transport::Tcp);
+            let r = catch_unwind(AssertUnwindSafe(|| match (c.call)(&req, info, &mut big[..65535]) { Response::Single(n) => Some(n), Response::None => None }));
+            let n = match r { Ok(Some(n)) => n, Ok(None) => fail("[C05] no response to a well-formed query", &input, &"none", &"a response"), Err(_) => fail("[C05] Server::handle_message panicked", &input, &"panic", &"a response") };
+            let out = &big[..n];
+            // shown: the last 120 octets (the part beyond offset 16384)
+            let shown = |why: &str| format!("{why}; {n} octets, the last 120 from offset {}: {}", n.saturating_sub(120), hex(&out[n.saturating_sub(120)..]));
+            let d = match decode(out) { Ok(d) => d, Err(why) => fail("[C02] the response does not decode", &input, &shown(&why), &"a well-formed message") };
+            if let Err(why) = pointer_check(out) { fail("[C02][C13] a name of the response is not well formed", &input, &shown(&why), &"every pointer strictly backwards to a label of an earlier name"); }
+            if d.tc() { fail("[C04] TC set over TCP", &input, &"TC", &"TC clear"); }
+            let an = section(&d, 0);
+            if d.ext_rcode() != 0 || an != want {
+                let diff: Vec<RR> = an.iter().filter(|r| !want.contains(r)).cloned().collect();
+                fail("[C05] answer section (as a multiset) of a response of more than 16384 octets", &input, &(d.ext_rcode(), an.len(), "records not in the RRset", show(&diff), shown("")), &(0, want.len(), "the RRset big.hg. MX"));
+            }
+            if n > 16384 { huge += 1; }
+        }
+    }}}
+    if huge < 200 { fail("set-up: the responses meant to exceed 16384 octets do not", &huge, &"", &">= 200 of them"); }
+    done(cases, "64 variants of the zone ap.ex. (6 toggles; alone in a SingleZoneCatalog / with 2 child zones and a class-CH zone in a HashMapTreeCatalog) and the zone bg. (every query also TSIG-signed with key key.dept.bg.) x every owner name, a child of each and 30-38 extra names x 10 QTYPEs x QCLASS IN (CH where such a zone exists) x EDNS none/1232/4096 (600 for bg.) x TCP + UDP with 3 response-buffer sizes; zone hg.: big.hg. MX over TCP without / with EDNS, RRset = 1020/1021/1022 records with exchange big.hg. + 2-4 exchanges sharing suffixes (3 kinds: out-of-zone, in-zone, three labels deep) whose first label has 18..=30 / 1..=24 / 1, 9 octets, so that the response exceeds 16384 octets and each label of those names lies on either side of offset 16384; every response also walked by the strict pointer check");
 }
